@@ -141,6 +141,18 @@ def check_traces(ctx, scenarios, workdir, name, invariants, pid_of_inv=None, rac
         culprit = scenarios[begun]["id"] if begun < len(scenarios) else "?"
         raise Inconclusive("driver stopped after %d/%d scenarios (next: %s), rc=%d\n%s"
                            % (begun, len(scenarios), culprit, rc, log[-3000:]))
+    if hung:
+        # what virtual time could not run is run again on the wall clock, so that it is judged after all
+        again = [dict(byid[h], realtime=True) for h in hung[:8] if h in byid]
+        try:
+            trace2, rc2, _log2, _begun2, hung2 = run_scenarios(again, workdir, name + "_rt", timeout=900, race=race)
+            if rc2 == 0 and os.path.exists(trace2):
+                with open(trace, "a") as fo, open(trace2) as fi:
+                    fo.write(fi.read())
+                ctx.notes[-1] = ("scenarios virtual time could not run were run again in real time: %s; still not judged: %s"
+                                 % ([h for h in hung[:8] if h not in hung2], hung2 + hung[8:]))
+        except Exception as e:       # the re-run is a bonus: never turn it into a verdict
+            ctx.notes.append("real-time re-run of abandoned scenarios failed: %s" % str(e)[:200])
     nev = sum(1 for _ in open(trace))
     remaining = trace
     guard = 0
